@@ -110,7 +110,16 @@ def regenerate(ctx):
         srcs = sorted(set(src.values())) + (PXD if twin == "pyx" else [])
         ctx.write_gen(f"Twins{suffix}", lean_file(f"EzdxfVerif.Gen.Twins{suffix}", defs, extra=extra), srcs)
     # loops (session 3): loop bodies / tests cut out of both twins, skeleton text compared with the pinned one
-    c10_loops.regenerate_loops(ctx)
+    _, problems = c10_loops.regenerate_loops(ctx)
+    # a changed pinned text / failed cut is a BROKEN OBLIGATION, not yet a violation: it is recorded with its diff, and oracle() searches
+    # the real twins for a concrete failing input of the named function (ctx.c10_suspects -> targeted, boosted plans)
+    from runner import Broken
+    ctx.c10_suspects = []
+    for suspect, text in problems:
+        lines = text.split("\n")
+        diff = " | ".join(ln for ln in lines[1:] if ln[:1] in "+-" and not ln.startswith(("---", "+++")))[:220]
+        ctx.broken.append(Broken("translation", f"pinned loop text of {suspect}", lines[0][:200] + (" :: " + diff if diff else "") + "\n" + text))
+        ctx.c10_suspects.append(suspect)
 
 
 # ================================================================================================ twins on the real code
@@ -138,7 +147,13 @@ RULE = (
     "the implementation's derivative table, consecutive line_segment calls of one renderer, clockwise tests), dyadic inputs. "
     "oracle: every public name of every module of the package ezdxf.acc is enumerated from the LIVE modules (pkgutil + dir()); a "
     "module without registered twin, a name without twin, and a name with neither theorem nor differential stream is reported "
-    "(evidence: coverage.api_inventory)."
+    "(evidence: coverage.api_inventory). "
+    "BROKEN PINNED TEXT / CUT (follow-up): regenerate records the diff as a broken obligation naming the function, and the oracle then SEARCHES the "
+    "real twins with the boosted plans of that function (SEARCH_PLANS); a concrete failing input becomes the replay, only otherwise the line ends "
+    "with no-failing-input-found. Always-on targeted plans: diff_earcut_holes (several holes with tied sort keys: equal leftmost x in every y "
+    "order, rings started at any vertex, steiner points), diff_linetypes_far (short segments at |coordinate| 1e5..1e9 rendered by consecutive "
+    "calls of one renderer), diff_aliasing (every public callable of Matrix44 that can return a Matrix44/list/array, list builders of Vec2/Vec3, "
+    "Bezier control_points/approximate/flattening: `result is argument`, mutate result -> argument changed?, mutate argument -> result changed?)."
 )
 TRUSTED_BASE = [
     "py2lean translator + pyx pre-pass (cross-checked by the correspondence stream of C10 and C11 on every run)",
@@ -157,6 +172,10 @@ ASSUMPTIONS = [
     "twin_binomial: k <= 18 (size of the FACTORIAL table; the Cython Basis limits the order to 11)",
 ]
 OPEN = [
+    "object identity / aliasing is NOT a statement of the twin_<f> theorems: they are value equalities over immutable rational models (e.g. "
+    "Matrix44.chain translated for 1, 2, 3 arguments proves the value only; `chain(m) is m` cannot be expressed). It is covered by the aliasing "
+    "probe of the differential oracle (diff_aliasing: result identical to / sharing state with an argument or the receiver, in both directions, "
+    "must agree between the twins; documented in-place methods listed in IN_PLACE), which is a test, not a proof",
     "earcut (mapbox_earcut twins): no Lean twin theorem here; tie = 21 of the 29 functions (all ring surgery loops) are the SAME text in both "
     "twins after the token rewrites EARCUT_TOKENS, the diffs of the other 8 are pinned (c10_loops.earcut_identity, checked every run); the "
     "arithmetic leaf kernels of both twins are proved equal in C19 (cython_twin_kernels_agree); is_ear/is_ear_hashed/find_hole_bridge/"
@@ -1503,7 +1522,226 @@ PROBED_DUNDERS = {"__init__", "__add__", "__sub__", "__radd__", "__rsub__", "__m
                   "__repr__", "__str__", "__reduce__", "__matmul__", "__imul__", "__iadd__", "__isub__", "__copy__", "__deepcopy__"}
 
 
-def run_diff(seed: int, quick: bool) -> Diff:
+
+# ---------------------------------------------------------------------------------------------- targeted plans (ties, far coordinates, aliasing)
+def diff_earcut_holes(d: Diff, n: int):
+    """polygons with SEVERAL holes whose sort keys tie: leftmost vertices with the same x (columns / grids of cut-outs) given in every
+    order of y, leftmost vertices with the same (x, y) (touching holes), holes that are single points; hole rings start at any vertex"""
+    r = d.rng
+
+    def tri_canon(im, ext, holes):
+        pts = {id(p): i for i, p in enumerate(ext + [q for h in holes for q in h])}
+        return [tuple(pts[id(p)] for p in t) for t in im.earcut.earcut(ext, holes)]
+
+    for _ in range(n):
+        cols, rows = r.choice([(1, 2), (1, 3), (2, 2), (2, 3), (3, 2), (1, 4)])
+        pitch = r.choice([3.0, 4.0, 2.5])
+        W, H = cols * pitch + 2.0, rows * pitch + 2.0
+        ext = [("V2", (0.0, 0.0)), ("V2", (W, 0.0)), ("V2", (W, H)), ("V2", (0.0, H))]
+        if r.random() < 0.3:
+            ext = ext[::-1]
+        shape = r.choice(["tri", "square", "diamond", "mixed"])
+        holes = []
+        for i in range(cols):
+            for j in range(rows):
+                x, y = 1.0 + i * pitch, 1.0 + j * pitch
+                sh = r.choice(["tri", "square", "diamond"]) if shape == "mixed" else shape
+                if sh == "tri":  # unique leftmost vertex (x, y + 0.5)
+                    h = [(x, y + 0.5), (x + 1.0, y), (x + 1.0, y + 1.0)]
+                elif sh == "diamond":
+                    h = [(x, y + 0.5), (x + 0.5, y), (x + 1.0, y + 0.5), (x + 0.5, y + 1.0)]
+                else:  # two leftmost vertices
+                    h = [(x, y), (x + 1.0, y), (x + 1.0, y + 1.0), (x, y + 1.0)]
+                k = r.randrange(len(h))
+                h = h[k:] + h[:k]
+                if r.random() < 0.3:
+                    h = h[::-1]
+                holes.append([("V2", q) for q in h])
+        order = r.choice(["up", "down", "shuffle", "shuffle"])
+        if order == "down":
+            holes.reverse()
+        elif order == "shuffle":
+            r.shuffle(holes)
+        if r.random() < 0.15:
+            holes.append([("V2", (holes[0][0][1][0], H - 0.25))])  # steiner point with the same x as a hole vertex
+        d.call("mapbox_earcut.earcut/hole-ties", [("seq", ext), ("seq", [("seq", h) for h in holes])], tri_canon, cover="mapbox_earcut.earcut")
+
+
+def diff_linetypes_far(d: Diff, n: int):
+    """short segments far from the origin (geo-referenced drawings): the degenerate-segment shortcut is a RELATIVE test per axis; polylines
+    rendered by consecutive calls of one renderer, so that a call that does (not) advance the pattern shifts everything after it"""
+    r = d.rng
+    for _ in range(n):
+        base = r.choice([(1e7, 5e6, 0.0), (1e6, -3e6, 100.0), (4.5e5, 5.4e6, 0.0), (1e9, 1e9, 0.0), (0.0, 1e7, 0.0)])
+        unit = r.choice([1e-3, 1e-2, 1e-4, 1.0])
+        dashes = [unit * x for x in r.choice([[2.0, 1.0], [3.0, 1.0, 0.0, 1.0], [1.0, 0.5, 0.25], [5.0, 2.5], [0.0, 1.0]])]
+        p = base
+        segs = []
+        for _ in range(r.randint(3, 8)):
+            ln = unit * r.choice([1.0, 2.0, 0.5, 5.0, 7.0, 1e3, 0.1])
+            dx, dy, dz = r.choice([(1.0, 0.0, 0.0), (0.0, 1.0, 0.0), (0.6, 0.8, 0.0), (-1.0, 0.0, 0.0), (0.0, -0.6, 0.8), (0.0, 0.0, 1.0)])
+            q = (p[0] + dx * ln, p[1] + dy * ln, p[2] + dz * ln)
+            segs.append((p, q))
+            p = q
+
+        def run(im, dd, ss):
+            ltr = im.LTR(dd)
+            # the vertex count per call is the observable (the float positions of the dashes carry the rounding of start + dir * length
+            # at |coordinate| 1e7 and are compared on that scale)
+            return [[(a, b) for a, b in ltr.line_segment(s, e)] for s, e in ss]
+
+        d.call("_LineTypeRenderer.line_segment/far", [R(dashes), R(segs)], run, ulp=1 << 12, cover="_LineTypeRenderer.line_segment")
+
+
+# methods whose DOCUMENTED semantics is in place (the result is the receiver / None, an argument is modified): listed, still compared
+IN_PLACE = {"Matrix44.transpose", "Matrix44.inverse", "Matrix44.__imul__", "Matrix44.set_row", "Matrix44.set_col", "Matrix44.__setitem__",
+            "Matrix44.transform_array_inplace", "Matrix44.origin/set"}
+
+
+def _snap(x):
+    import numpy as np
+    if isinstance(x, np.ndarray):
+        return ("nd", x.tobytes())
+    if isinstance(x, list):
+        return ("list", tuple(repr(t) for t in x))
+    if isinstance(x, tuple(Canon.BOTH["M"])):
+        return ("M", tuple(x))
+    return ("other", repr(x))
+
+
+def _mutable(x) -> bool:
+    import numpy as np
+    return isinstance(x, (list, np.ndarray)) or isinstance(x, tuple(Canon.BOTH["M"]))
+
+
+def _mutate(x):
+    import numpy as np
+    if isinstance(x, np.ndarray):
+        if x.size and x.flags.writeable:
+            x.flat[0] += 1.0
+    elif isinstance(x, list):
+        x.append(None)
+    elif isinstance(x, tuple(Canon.BOTH["M"])):
+        x[0, 0] = x[0, 0] + 1.0
+        x.set_row(3, (9.0, 8.0, 7.0, 6.0))
+
+
+def alias_probe(call):
+    """-> fn(im, *args) for Diff.call: (result is an argument?, per argument: did mutating the RESULT change it?, per argument: did mutating
+    the ARGUMENT afterwards change the result?) - the same verdicts are required of both twins"""
+    def fn(im, *args):
+        import copy as _c
+        Canon(im)
+        args = [_c.deepcopy(a) if isinstance(a, list) and not any(_mutable(t) and not isinstance(t, list) for t in a) else a for a in args]  # raw specs are shared between the twins
+        res = call(im, *args)
+        if hasattr(res, "__next__"):
+            res = list(res)
+        items = [res] + (list(res) if isinstance(res, (list, tuple)) else [])
+        muts = [x for x in items if _mutable(x)]
+        ident = any(x is a for x in muts for a in args)
+        before = [_snap(a) for a in args]
+        for x in muts:
+            _mutate(x)
+        fwd = [_snap(a) != b for a, b in zip(args, before)]
+        rsnap = [_snap(x) for x in muts]
+        for a in args:
+            if _mutable(a) and not any(a is x for x in muts):
+                _mutate(a)
+        back = [_snap(x) != b for x, b in zip(muts, rsnap)]
+        return (ident, fwd, back)
+    return fn
+
+
+def diff_aliasing(d: Diff, n: int):
+    """every public callable of the twin classes that returns (or yields) an object of a mutable kind - Matrix44, list, numpy array - is
+    called on both twins; the result must be identical to / share state with an argument in BOTH twins or in NEITHER"""
+    import copy as _copy
+    import numpy as np
+    g, r = d.gen, d.rng
+    probed = set()
+
+    def P(name, specs, call):
+        probed.add(name.split("/")[0])
+        d.call(f"alias/Matrix44.{name}", specs, alias_probe(call), cover=f"Matrix44.{name.split('/')[0]}")
+
+    for _ in range(n):
+        m, o, q = g.matrix(), g.matrix(), g.matrix()
+        for k in range(0, 4):
+            ms = [m, o, q][:k]
+            P(f"chain/{k}", ms, lambda im, *xs: im.M.chain(*xs))
+        P("chain/same", [m], lambda im, x: im.M.chain(x, x))
+        P("copy", [m], lambda im, x: x.copy())
+        P("__copy__", [m], lambda im, x: _copy.copy(x))
+        P("__deepcopy__", [m], lambda im, x: _copy.deepcopy(x))
+        P("__reduce__", [m], lambda im, x: __import__("pickle").loads(__import__("pickle").dumps(x)))
+        P("__mul__", [m, o], lambda im, x, y: x * y)
+        P("__mul__/identity", [m], lambda im, x: x * im.M())
+        P("__matmul__", [m, o], lambda im, x, y: x @ y)
+        P("__imul__", [m, o], lambda im, x, y: _iop(x, y, "*")[0])
+        P("transpose", [m], lambda im, x: x.transpose())
+        wm = ("M", tuple(float(t) for t in g.g.unimodular()))
+        P("inverse", [wm], lambda im, x: x.inverse())
+        P("__init__/list", [R(list(m[1]))], lambda im, x: im.M(x))
+        P("__init__/ndarray", [("np", list(m[1]))], lambda im, x: im.M(x))
+        P("__init__/rows", [R([list(m[1][4 * i:4 * i + 4]) for i in range(4)])], lambda im, rows: im.M(*rows))
+        pts = [g.v3() for _ in range(r.randint(1, 3))]
+        P("transform_vertices", [m, ("seq", pts)], lambda im, x, ps: x.transform_vertices(ps))
+        P("transform_directions", [m, ("seq", pts)], lambda im, x, ps: x.transform_directions(ps))
+        P("fast_2d_transform", [m, ("seq", [g.v2() for _ in range(2)])], lambda im, x, ps: x.fast_2d_transform(ps))
+        P("transform_array_inplace", [m, ("np", [[1.0, 2.0, 3.0], [4.0, 5.0, 6.0]])], lambda im, x, a: (x.transform_array_inplace(a, 3), a)[1])
+        P("rows", [m], lambda im, x: list(x.rows()))
+        P("columns", [m], lambda im, x: list(x.columns()))
+        P("__iter__", [m], lambda im, x: list(x))
+        P("get_row", [m], lambda im, x: x.get_row(1))
+        P("get_2d_transformation", [m], lambda im, x: x.get_2d_transformation())
+        # Vec2 / Vec3 class level list builders and the Bezier classes (immutable results: identity only)
+        lst = [g.v3() for _ in range(r.randint(0, 3))]
+        for cls in ("Vec3", "Vec2"):
+            for nm in ("list", "tuple"):
+                d.call(f"alias/{cls}.{nm}", [("seq", lst if cls == "Vec3" else [g.v2() for _ in lst])],
+                       alias_probe(lambda im, xs, cls=cls, nm=nm: getattr(im.classes[cls], nm)(xs)), cover=f"{cls}.{nm}")
+        for cls, key, npts in (("Bezier4P", "B4", 4), ("Bezier3P", "B3", 3)):
+            curve = (key, [("V3", tuple(float(g.g.dy(0)) for _ in range(3))) for _ in range(npts)])  # moderate size: flattening(0.1) must stay small
+            d.call(f"alias/{cls}.control_points", [curve], alias_probe(lambda im, cv: cv.control_points), cover=f"{cls}.control_points")
+            d.call(f"alias/{cls}.approximate", [curve], alias_probe(lambda im, cv: cv.approximate(4)), cover=f"{cls}.approximate")
+            d.call(f"alias/{cls}.flattening", [curve], alias_probe(lambda im, cv: cv.flattening(0.1)), cover=f"{cls}.flattening")
+    # every public callable of Matrix44 (live class, both twins) that can return a Matrix44 / list / array must have a probe above;
+    # the others return immutable values (Vec3, tuple, float, bool, str) or are factories without a mutable argument
+    IMMUTABLE_RESULT = {"transform", "transform_direction", "ocs_to_wcs", "ocs_from_wcs", "ucs_vertex_from_wcs", "ucs_direction_from_wcs", "get_col",
+                        "determinant", "origin", "ux", "uy", "uz", "is_cartesian", "is_orthogonal", "set_row", "set_col",
+                        "scale", "translate", "x_rotate", "y_rotate", "z_rotate", "axis_rotate", "xyz_rotate", "shear_xy", "perspective_projection",
+                        "perspective_projection_fov", "ucs", "from_2d_transformation"}
+    for cls in (d.py.M, d.cx.M):
+        for nm in dir(cls):
+            if nm.startswith("_") or nm in probed or nm in IMMUTABLE_RESULT:
+                continue
+            d.note_fail(f"uncovered/alias/Matrix44.{nm}", f"public name Matrix44.{nm} has no aliasing probe and is not listed as returning an immutable value (new method?)")
+
+
+# pinned function (suspect name of c10_loops.regenerate_loops) -> plans that search the real twins for a failing input, with their quick sizes
+SEARCH_PLANS = {
+    "mapbox_earcut": [("diff_earcut_holes", 400), ("diff_earcut", 400)],
+    "_LineTypeRenderer": [("diff_linetypes_far", 600), ("diff_linetypes", 3000)],
+    "Basis": [("diff_bspline", 1200)], "Evaluator": [("diff_bspline", 1200)], "bisect_right": [("diff_bspline", 1200)],
+    "has_clockwise_orientation": [("diff_construct", 800), ("diff_np_support", 600)], "_has_clockwise_orientation": [("diff_np_support", 600)],
+    "_lu_decompose": [("diff_np_support", 800)], "_solve_vector_banded_matrix": [("diff_np_support", 800)],
+}
+
+
+def search_suspects(d: Diff, suspects: list) -> list:
+    """a pinned text / cut of these functions is broken: run the plans that exercise them with boosted sizes -> names of the plans run"""
+    ran = []
+    for s in suspects:
+        for key, plans in SEARCH_PLANS.items():
+            if s.split(".")[0] == key or s.startswith(key):
+                for plan, size in plans:
+                    if plan not in ran:
+                        globals()[plan](d, size)
+                        ran.append(plan)
+    return ran
+
+
+def run_diff(seed: int, quick: bool, suspects=()) -> Diff:
     d = Diff(seed, quick)
     k = 1 if quick else 12
     diff_vectors(d, 120 * k)
@@ -1514,6 +1752,10 @@ def run_diff(seed: int, quick: bool) -> Diff:
     diff_earcut(d, 100 * k)
     diff_linetypes(d, 600 * k)
     diff_np_support(d, 100 * k)
+    diff_earcut_holes(d, 60 * k)
+    diff_linetypes_far(d, 100 * k)
+    diff_aliasing(d, 25 * k)
+    d.searched = search_suspects(d, list(suspects))
     api_surface(d)
     d.inventory = inventory(d)
     return d
@@ -1524,7 +1766,10 @@ def oracle(ctx):
         ctx.note("C extensions are not importable: the differential oracle cannot run")
         from runner import Infra
         raise Infra("C10 needs the C extensions (ezdxf.acc.*) to be importable")
-    d = run_diff(ctx.seed, ctx.quick)
+    suspects = list(getattr(ctx, "c10_suspects", []))
+    d = run_diff(ctx.seed, ctx.quick, suspects)
+    if suspects:
+        ctx.note(f"broken pinned text of {sorted(set(suspects))}: searched the real twins with boosted plans {d.searched}")
     for stream, (n, nt) in d.counts.items():
         st = ctx.cov["streams"].setdefault(stream, {"evaluations": 0, "distinct_nontrivial": 0})
         st["evaluations"] += n
